@@ -10,6 +10,17 @@
 (* so it interleaves with everything).  The specification gives, for every *)
 (* step, X's reply and whether X touches the store; D's reply is always    *)
 (* the full chain.  The harness compares X with D byte for byte.           *)
+(*                                                                         *)
+(* The storage layer below the cache is a refinement detail selected by    *)
+(* the constant Dialect: "memory" (a map: Add assigns), "mysql" (INSERT;   *)
+(* a duplicate key is refused with error 1062, which Add swallows),        *)
+(* "postgresql" (INSERT ... ON CONFLICT DO NOTHING: zero rows, no error).  *)
+(* Where the dialects differ observably the specification says how: the    *)
+(* de-duplication path (reply.path), what a re-Add does to a damaged row,  *)
+(* the error classes of a SQL connection (statement error, cancellation    *)
+(* in flight and after the commit, a lost connection that database/sql     *)
+(* replaces without the caller noticing, a database that is down), and     *)
+(* what the layer itself hands to the service (reply.layer).               *)
 (***************************************************************************)
 EXTENDS Integers, Sequences, FiniteSets, TLC
 
@@ -19,7 +30,31 @@ CONSTANTS
   NoCache,    \* TRUE: the noop cache
   Cap,        \* LRU capacity: 0 = unbounded, n > 0 = n entries
   MaxTree,
-  MaxFaults
+  MaxFaults,
+  Dialect     \* storage layer: "memory" | "mysql" | "postgresql"
+
+ASSUME Dialect \in {"memory", "mysql", "postgresql"}
+SQL == Dialect # "memory"
+
+\* what the storage layer does with an Add of a key the table already holds
+DedupPath == CASE Dialect = "memory" -> "rewrite"                 \* the map entry is assigned again
+               [] Dialect = "mysql" -> "dupKeyError"              \* INSERT refused with ER_DUP_ENTRY (1062); Add treats exactly that as success
+               [] OTHER -> "conflictSkipped"                      \* ON CONFLICT DO NOTHING: no row written, no error
+
+\* error classes of the storage layer.  Hard: the caller of Add / FindByKey gets an error.
+\*   addError / findError   the statement is answered with an error (any but the unique violation), nothing executed
+\*   addCancel / findCancel the request context is cancelled while the statement is in flight, nothing executed
+\*   addLateCancel          the INSERT is executed, the context is cancelled before the result reaches the caller
+\*   findRowsError          the query is accepted, reading its result set fails
+\*   addConnDown / findConnDown   every connection (and every new one) fails
+\* Soft: addConnLost / findConnLost - the connection is lost before the statement is sent (driver.ErrBadConn);
+\*   database/sql sends it again on another connection and the caller notices nothing.
+AddFaultsHard == IF SQL THEN {"addError", "addCancel", "addLateCancel", "addConnDown"} ELSE {"addError"}
+AddFaultsSoft == IF SQL THEN {"addConnLost"} ELSE {}
+FindFaultsHard == IF SQL THEN {"findError", "findCancel", "findRowsError", "findConnDown"} ELSE {"findError"}
+FindFaultsSoft == IF SQL THEN {"findConnLost"} ELSE {}
+AddFaults == AddFaultsHard \cup AddFaultsSoft
+FindFaults == FindFaultsHard \cup FindFaultsSoft
 
 Chains == {ChainOf[c] : c \in Certs}
 
@@ -52,23 +87,33 @@ Init == /\ queued = <<>> /\ tree = <<>> /\ known = {}
         /\ hist = <<>> /\ last = [op |-> "Init"]
 
 \* add-chain on both instances.  X: BuildLogLeaf stores the chain (unless the cache already has it), then queues.
+\* reply.add: the storage layer is called; reply.path: what it does; reply.layer: what it returns to the service.
 Submit(c, fault) ==
   LET h == ChainOf[c]
       hit == ~NoCache /\ InCache(h)
-  IN /\ fault \in {"none", "addError"}
-     /\ fault = "addError" => faults < MaxFaults /\ ~hit       \* an Add fault can only strike when Add is called
-     /\ IF fault = "addError"
+      present == h \in store
+  IN /\ fault \in {"none"} \cup AddFaults
+     /\ fault # "none" => faults < MaxFaults /\ ~hit       \* an Add fault can only strike when Add is called
+     /\ IF fault \in AddFaultsHard
         THEN /\ faults' = faults + 1
-             /\ UNCHANGED <<queued, tree, known, store, bad, cache, pending>>
-             /\ Record(Step("Submit", [cert |-> c, fault |-> fault], [status |-> 500, add |-> TRUE]))
+             \* a statement that was executed before the cancellation has written its row (if there was none)
+             /\ store' = IF fault = "addLateCancel" THEN store \cup {h} ELSE store
+             /\ bad' = IF fault = "addLateCancel" /\ ~present THEN [bad EXCEPT ![h] = "ok"] ELSE bad
+             /\ UNCHANGED <<queued, tree, known, cache, pending>>
+             /\ Record(Step("Submit", [cert |-> c, fault |-> fault], [status |-> 500, add |-> TRUE, path |-> "error", layer |-> "error"]))
         ELSE /\ store' = IF hit THEN store ELSE store \cup {h}
-             /\ bad' = IF hit THEN bad ELSE [bad EXCEPT ![h] = "ok"]              \* a re-Add rewrites the row
+             \* memory: a re-Add assigns the entry again (and so repairs a damaged one); SQL: the row that is there stays as it is
+             /\ bad' = IF hit \/ (SQL /\ present) THEN bad ELSE [bad EXCEPT ![h] = "ok"]
              /\ cache' = IF hit THEN Touch(h) ELSE cache
              /\ pending' = IF hit \/ NoCache THEN pending ELSE Append(pending, h)
              /\ queued' = IF c \in known THEN queued ELSE Append(queued, c)
              /\ known' = known \cup {c}
-             /\ UNCHANGED <<tree, faults>>
-             /\ Record(Step("Submit", [cert |-> c, fault |-> fault], [status |-> 200, add |-> ~hit]))
+             /\ faults' = IF fault = "none" THEN faults ELSE faults + 1
+             /\ UNCHANGED tree
+             /\ Record(Step("Submit", [cert |-> c, fault |-> fault],
+                            [status |-> 200, add |-> ~hit,
+                             path |-> IF hit THEN "hit" ELSE IF present THEN DedupPath ELSE "inserted",
+                             layer |-> IF hit THEN "none" ELSE "ok"]))
 
 Sequence(k) ==
   /\ k \in 1..Len(queued) /\ Len(tree) + k <= MaxTree
@@ -86,54 +131,61 @@ Legacy(c) ==
   /\ Record(Step("Legacy", [cert |-> c], [status |-> 0]))
 
 \* get-entries (via = "entries") or get-entry-and-proof (via = "proof") for index i (1-based here) on X
+\* reply.find: the storage layer is called; reply.layer: what it returns ("data" = the row's bytes as they are in
+\* the table, intact or damaged: the layer does not judge them; "error": no bytes at all)
 Read(i, via, fault) ==
   LET e == tree[i]
       h == ChainOf[e.cert]
       hit == ~NoCache /\ InCache(h)
       needStore == e.layout = "hash" /\ ~hit
+      layer == IF fault \in FindFaultsHard \/ h \notin store THEN "error" ELSE "data"      \* a missing row is an error, never empty data
   IN /\ i \in 1..Len(tree)
-     /\ fault \in {"none", "findError"}
-     /\ fault = "findError" => faults < MaxFaults /\ needStore
+     /\ fault \in {"none"} \cup FindFaults
+     /\ fault # "none" => faults < MaxFaults /\ needStore
      /\ faults' = IF fault = "none" THEN faults ELSE faults + 1
      /\ IF ~needStore
         THEN /\ cache' = IF e.layout = "hash" THEN Touch(h) ELSE cache
              /\ UNCHANGED pending
              /\ Record(Step("Read", [index |-> i - 1, via |-> via, fault |-> fault],
-                            [status |-> 200, cert |-> e.cert, find |-> FALSE]))
-        ELSE IF fault = "findError" \/ h \notin store \/ bad[h] # "ok"
+                            [status |-> 200, cert |-> e.cert, find |-> FALSE, layer |-> "none"]))
+        ELSE IF layer = "error" \/ bad[h] # "ok"
         THEN /\ UNCHANGED <<cache, pending>>
              /\ Record(Step("Read", [index |-> i - 1, via |-> via, fault |-> fault],
-                            [status |-> 500, cert |-> e.cert, find |-> TRUE]))
+                            [status |-> 500, cert |-> e.cert, find |-> TRUE, layer |-> layer]))
         ELSE /\ pending' = IF NoCache THEN pending ELSE Append(pending, h)
              /\ UNCHANGED cache
              /\ Record(Step("Read", [index |-> i - 1, via |-> via, fault |-> fault],
-                            [status |-> 200, cert |-> e.cert, find |-> TRUE]))
+                            [status |-> 200, cert |-> e.cert, find |-> TRUE, layer |-> layer]))
      /\ UNCHANGED <<queued, tree, known, store, bad>>
 
 \* get-entries over several indices i..j: the entries are resolved one after the other, the request fails at the first
 \* one that cannot be resolved (what was resolved before keeps its effect on the cache); an injected storage fault
-\* strikes the first storage lookup of the request
+\* strikes the first storage lookup of the request.  ls: what the storage layer returned, lookup by lookup.
 RECURSIVE RangeFold(_, _, _, _, _, _)
-RangeFold(k, j, ca, pe, fl, nf) ==
-  IF k > j THEN [ok |-> TRUE, cache |-> ca, pending |-> pe, finds |-> nf, fl |-> fl]
+RangeFold(k, j, ca, pe, fl, ls) ==
+  IF k > j THEN [ok |-> TRUE, cache |-> ca, pending |-> pe, layers |-> ls, fl |-> fl]
   ELSE LET e == tree[k]
            h == ChainOf[e.cert]
            hit == ~NoCache /\ \E x \in 1..Len(ca) : ca[x] = h
-       IN IF e.layout = "full" THEN RangeFold(k + 1, j, ca, pe, fl, nf)
-          ELSE IF hit THEN RangeFold(k + 1, j, Append(Without(ca, h), h), pe, fl, nf)
-          ELSE IF fl \/ h \notin store \/ bad[h] # "ok"
-               THEN [ok |-> FALSE, cache |-> ca, pending |-> pe, finds |-> nf + 1, fl |-> FALSE]
-          ELSE RangeFold(k + 1, j, ca, IF NoCache THEN pe ELSE Append(pe, h), fl, nf + 1)
+       IN IF e.layout = "full" THEN RangeFold(k + 1, j, ca, pe, fl, ls)
+          ELSE IF hit THEN RangeFold(k + 1, j, Append(Without(ca, h), h), pe, fl, ls)
+          ELSE IF fl \/ h \notin store
+               THEN [ok |-> FALSE, cache |-> ca, pending |-> pe, layers |-> Append(ls, "error"), fl |-> FALSE]
+          ELSE IF bad[h] # "ok"
+               THEN [ok |-> FALSE, cache |-> ca, pending |-> pe, layers |-> Append(ls, "data"), fl |-> FALSE]
+          ELSE RangeFold(k + 1, j, ca, IF NoCache THEN pe ELSE Append(pe, h), fl, Append(ls, "data"))
 
 ReadRange(i, j, fault) ==
   /\ i \in 1..Len(tree) /\ j \in 1..Len(tree) /\ i < j
-  /\ fault \in {"none", "findError"}
-  /\ LET r == RangeFold(i, j, cache, pending, fault = "findError", 0)
-     IN /\ fault = "findError" => faults < MaxFaults /\ ~r.fl          \* the fault can only strike when a lookup happens
+  /\ fault \in {"none"} \cup FindFaults
+  /\ LET r == RangeFold(i, j, cache, pending, fault \in FindFaultsHard, <<>>)
+     IN /\ fault \in FindFaultsHard => faults < MaxFaults /\ ~r.fl      \* the fault can only strike when a lookup happens
+        /\ fault \in FindFaultsSoft => faults < MaxFaults /\ Len(r.layers) > 0
         /\ faults' = IF fault = "none" THEN faults ELSE faults + 1
         /\ cache' = r.cache /\ pending' = r.pending
         /\ Record(Step("ReadRange", [index |-> i - 1, to |-> j - 1, fault |-> fault],
-                       [status |-> IF r.ok THEN 200 ELSE 500, finds |-> r.finds, sets |-> Len(r.pending) - Len(pending)]))
+                       [status |-> IF r.ok THEN 200 ELSE 500, finds |-> Len(r.layers), layers |-> r.layers,
+                        sets |-> Len(r.pending) - Len(pending)]))
   /\ UNCHANGED <<queued, tree, known, store, bad>>
 
 \* the detached goroutine runs
@@ -165,14 +217,15 @@ Restart ==
   /\ UNCHANGED <<queued, tree, known, store, bad>>
   /\ Record(Step("Restart", [k |-> 0], [status |-> 0]))
 
-CorruptClasses == {"trailing", "notDER", "truncated", "contentFlip", "empty"}
+\* "swapped": the row holds the well-formed chain value of another key
+CorruptClasses == {"trailing", "notDER", "truncated", "contentFlip", "empty", "swapped"}
 
 Next ==
-  \/ \E c \in Certs, f \in {"none", "addError"} : Submit(c, f)
+  \/ \E c \in Certs, f \in {"none"} \cup AddFaults : Submit(c, f)
   \/ \E k \in 1..MaxTree : Sequence(k)
   \/ \E c \in Certs : Legacy(c)
-  \/ \E i \in 1..MaxTree, v \in {"entries", "proof"}, f \in {"none", "findError"} : Read(i, v, f)
-  \/ \E i \in 1..MaxTree, j \in 1..MaxTree, f \in {"none", "findError"} : ReadRange(i, j, f)
+  \/ \E i \in 1..MaxTree, v \in {"entries", "proof"}, f \in {"none"} \cup FindFaults : Read(i, v, f)
+  \/ \E i \in 1..MaxTree, j \in 1..MaxTree, f \in {"none"} \cup FindFaults : ReadRange(i, j, f)
   \/ CacheSetFires
   \/ \E h \in Chains : DropRow(h)
   \/ \E h \in Chains, k \in CorruptClasses : Corrupt(h, k)
@@ -215,6 +268,37 @@ StoreMonotone == [][last'.op # "DropRow" => store \subseteq store']_vars
 \* nothing but storage damage makes an integrated entry unservable for a cold front end
 ServableStays == [][\A i \in 1..Len(tree) : (ServableCold(i) /\ last'.op \notin {"DropRow", "Corrupt"}) => ServableCold(i)']_vars
 RestartIsCold == [][last'.op = "Restart" => cache' = <<>> /\ pending' = <<>>]_vars
+
+(* ---------------- the storage layer (per Dialect) ---------------- *)
+\* de-duplication: an Add of a key the table already holds (the same chain hash from another leaf, or from the same
+\* leaf again) is a success for the caller, takes the dialect's de-duplication path, and leaves the table as it is -
+\* in the SQL dialects down to the row's bytes (a damaged row stays damaged: nothing is written)
+DedupIsSuccess == [][(last'.op = "Submit" /\ last'.reply.add /\ last'.args.fault \notin AddFaultsHard /\ ChainOf[last'.args.cert] \in store)
+                        => /\ last'.reply.status = 200 /\ last'.reply.path = DedupPath /\ last'.reply.layer = "ok"
+                           /\ store' = store
+                           /\ SQL => bad' = bad]_vars
+FirstAddInserts == [][(last'.op = "Submit" /\ last'.reply.add /\ last'.args.fault \notin AddFaultsHard /\ ChainOf[last'.args.cert] \notin store)
+                        => last'.reply.path = "inserted" /\ ChainOf[last'.args.cert] \in store' /\ bad'[ChainOf[last'.args.cert]] = "ok"]_vars
+\* any other storage error on Add: the submission is answered 5xx (so: no SCT), nothing is queued, the certificate
+\* does not become known to the backend, no cache write is started
+AddErrorIs5xx == [][(last'.op = "Submit" /\ last'.args.fault \in AddFaultsHard)
+                       => /\ last'.reply.status = 500 /\ last'.reply.layer = "error"
+                          /\ queued' = queued /\ known' = known /\ cache' = cache /\ pending' = pending /\ tree' = tree]_vars
+\* an acknowledged submission called the layer and got "ok", or found the chain in the cache
+AckNeedsLayerOk == [][(last'.op = "Submit" /\ last'.reply.status = 200) => last'.reply.layer = IF last'.reply.add THEN "ok" ELSE "none"]_vars
+\* any storage error on FindByKey: the read is answered 5xx, never data
+FindErrorIs5xx == [][/\ (last'.op = "Read" /\ (last'.args.fault \in FindFaultsHard \/ last'.reply.layer = "error")) => last'.reply.status = 500
+                     /\ (last'.op = "ReadRange" /\ (last'.args.fault \in FindFaultsHard \/ \E k \in 1..Len(last'.reply.layers) : last'.reply.layers[k] = "error"))
+                           => last'.reply.status = 500]_vars
+\* a missing row is an error of the layer (never "data", in particular never empty chain data)
+MissingRowIsError == [][(last'.op = "Read" /\ last'.reply.find /\ ChainOf[last'.reply.cert] \notin store) => last'.reply.layer = "error" /\ last'.reply.status = 500]_vars
+\* a connection lost before the statement was sent is invisible: the reply is the one without the fault
+SoftFaultInvisible ==
+  [][/\ (last'.op = "Submit" /\ last'.args.fault \in AddFaultsSoft) => last'.reply.status = 200 /\ last'.reply.layer = "ok" /\ ChainOf[last'.args.cert] \in store'
+     /\ (last'.op = "Read" /\ last'.args.fault \in FindFaultsSoft)
+           => LET h == ChainOf[last'.reply.cert] IN last'.reply.status = (IF h \in store /\ bad[h] = "ok" THEN 200 ELSE 500)]_vars
+\* only the classes of the dialect occur
+FaultClasses == last.op \in {"Submit", "Read", "ReadRange"} => last.args.fault \in {"none"} \cup AddFaults \cup FindFaults
 
 \* the cache only ever holds chains that were stored (it cannot invent data)
 CacheSound == \A i \in 1..Len(cache) : cache[i] \in Chains
